@@ -1941,7 +1941,13 @@ void identify_global_search_terms(mmd_engine * e, scratch_pad * scratch) {
 }
 
 
+// Knuth's pseudo random generator is used to obfuscate email addresses predictably
+void ran_num_reset(void);
+
 void mmd_engine_export_token_tree(DString * out, mmd_engine * e, short format) {
+
+	// Output must not depend on earlier exports in this process
+	ran_num_reset();
 
 	// Process potential reference definitions
 	process_definition_stack(e);
